@@ -42,6 +42,8 @@ type Case struct {
 	Backend string       `json:"backend"` // badger | mem
 	Kind    string       `json:"kind"`    // diff | spelling
 	Alt     []model.Step `json:"alt,omitempty"`
+	// Arrival: how the graph got into the store (badger only; nil = every element written once)
+	Arrival *gripx.Arrival `json:"arrival,omitempty"`
 }
 
 func opsSig(steps []model.Step) string {
@@ -116,12 +118,15 @@ type backend struct {
 	mem  *memgraph.Graph
 }
 
-func open(t pbt.TB, name string, g *model.Graph) *backend {
+func open(t pbt.TB, name string, g *model.Graph, a *gripx.Arrival) *backend {
 	if name == "mem" {
 		m := memgraph.New(g)
 		return &backend{name: name, gi: m, mem: m}
 	}
-	gi, err := gripx.Load(gripx.DB("badger"), gripx.FreshName(), g)
+	if a != nil {
+		pbt.Class(t, "graph-arrived-through-overwrites-and-deletes")
+	}
+	gi, err := gripx.LoadVia(gripx.DB("badger"), gripx.FreshName(), g, a)
 	if err != nil {
 		t.Fatalf("INFRA: load: %v", err)
 	}
@@ -276,7 +281,7 @@ func runSpelling(t pbt.TB, b *backend, c Case) {
 }
 
 func runCase(t pbt.TB, c Case) {
-	b := open(t, c.Backend, c.Graph)
+	b := open(t, c.Backend, c.Graph, c.Arrival)
 	if c.Kind == "spelling" {
 		runSpelling(t, b, c)
 	} else {
@@ -300,8 +305,12 @@ func TestPlannedVsLiteral(t *testing.T) {
 	pbt.Check(t, 4000, 150000, func(rt *rapid.T) {
 		g := gen.Graph(rt, 6, 10)
 		steps := gen.Traversal(rt, gen.TravOpts{MaxLen: 8, FilterBias: true, NoOrder: rapid.IntRange(0, 9).Draw(rt, "noOrder") < 8})
+		arr := gen.Arrival(rt, g)
 		for _, be := range []string{"mem", "badger"} {
 			c := Case{Graph: g, Steps: steps, Backend: be, Kind: "diff"}
+			if be == "badger" {
+				c.Arrival = arr
+			}
 			pbt.Current(rt, c)
 			if pbt.WantSample(rt) {
 				pbt.Sample(rt, map[string]interface{}{"backend": be, "traversal": model.TravString(steps), "graph": g})
@@ -388,8 +397,12 @@ func TestSpellings(t *testing.T) {
 				break
 			}
 		}
+		arr := gen.Arrival(rt, g)
 		for _, be := range []string{"mem", "badger"} {
 			c := Case{Graph: g, Steps: a, Alt: z, Backend: be, Kind: "spelling"}
+			if be == "badger" {
+				c.Arrival = arr
+			}
 			pbt.Current(rt, c)
 			if pbt.WantSample(rt) {
 				pbt.Sample(rt, fmt.Sprintf("%s: %s ~ %s", be, model.TravString(a), model.TravString(z)))
